@@ -358,3 +358,13 @@ _extend('C03',
         'dataflow meaning of every requested output; the executor is total on such nets (DFS sort total and topological). A spec observation '
         'proved by example (C03_tuple_named_parent_refused): a named parent of a Discrepancy (its args_to_tuple twin takes positional '
         'arguments only) is refused by the model although Denote.wf_case does not exclude it - such graphs are not generated.')
+
+
+_extend('C03',
+        ' REFUSALS (C03_model_refusal_ok, C03_model_ok_wf, C03_model_result_wf, C03_wf_case_split): the spec predicate wf_case was '
+        'completed with the eight conditions the success theorem needs (distinct edge pairs, no reserved node names, observable nodes have no '
+        '_output, observed keys distinct and observable, positional-only parents of args_to_tuple nodes, with_values keys distinct and not '
+        'reserved; ok is monotone in this change: C03_ok_monotone, unchanged on accepted runs) and is now EXACTLY the conjunction of the '
+        'hypotheses of the success theorem: whenever the model refuses, ok accepts the refusal (malformed or stochastic observed data), and '
+        'for a well-formed case the model succeeds iff no observed data depends on a stochastic node and its result satisfies ok. The '
+        'unconditional statement is false (two counterexamples outside wf_case: a value supplied under _batch_size; duplicate with_values keys).')
